@@ -3,7 +3,7 @@
    [fire_time now d] = max now (floor((now+d)/1000)*1000 rounded down to the generated 200 ms bucket). *)
 From Coq Require Import NArith List Bool.
 From AV Require Import Gen.WsConnConsts Model.WsConn Proofs.WsConnProofs Proofs.WsConnProofs2 Proofs.WsConnProofs3
-  Proofs.WsConnTimers Proofs.WsConnLive Proofs.WsConnResp Proofs.WsConnPing.
+  Proofs.WsConnTimers Proofs.WsConnLive Proofs.WsConnResp Proofs.WsConnPing Proofs.WsConnCodes.
 Import ListNotations.
 Open Scope N_scope.
 
@@ -184,6 +184,19 @@ Theorem C17_responsive_ping : forall c evs q, let s := fst (run c evs) in
      pending_calls TAutoPing s' = 1%nat /\ pendLe TAutoPing (now s + autoPingInterval c) (timers s')).
 Proof. exact responsive_ping_run. Qed.
 Print Assumptions C17_responsive_ping.
+
+(* the auto ping can be sent for EVERY configurable autoPingSize: the accepted range of setProtocolOptions(autoPingSize=)
+   and the payload limit of sendPing / sendPong are probed on the real objects by the translator on every run.  This is
+   what makes the model's _sendAutoPing (which never raises between clearing autoPingPendingCall and arming the timeout)
+   sound over the whole documented range 12..125, not only for the default size *)
+Theorem C17_auto_ping_size_sendable : forall n,
+  auto_ping_size_min <= n <= auto_ping_size_max -> 12 <= n <= ping_payload_max.
+Proof. exact auto_ping_size_sendable. Qed.
+Print Assumptions C17_auto_ping_size_sendable.
+
+Theorem C17_pong_echo_sendable : ping_payload_max <= pong_payload_max.
+Proof. exact pong_echo_sendable. Qed.
+Print Assumptions C17_pong_echo_sendable.
 
 (* the step itself, for any state in which frames flow (reachable or not) *)
 Theorem C17_responsive_ping_step : forall c s q, frames_ready s = true -> pingPending s = Some q ->
